@@ -365,6 +365,7 @@ func checkC12(c *Ctx) {
 			}
 			info := pkg.TypesInfo
 			recurses, ranges := false, false
+			skipped := ""
 			ast.Inspect(decl.Body, func(n ast.Node) bool {
 				switch x := n.(type) {
 				case *ast.RangeStmt:
@@ -374,18 +375,66 @@ func checkC12(c *Ctx) {
 						if vid, ok := x.Value.(*ast.Ident); ok {
 							elem = info.ObjectOf(vid)
 						}
+						var recPos token.Pos
+						var recAll []token.Pos
 						ast.Inspect(x.Body, func(m ast.Node) bool {
 							if call, ok := m.(*ast.CallExpr); ok && Callee(info, call) == fn {
 								for _, a := range call.Args {
 									if sel, ok := ast.Unparen(a).(*ast.SelectorExpr); ok && sel.Sel.Name == "Messages" {
 										if id, ok := ast.Unparen(sel.X).(*ast.Ident); ok && info.ObjectOf(id) == elem {
 											recurses = true
+											recPos = call.Pos()
+											recAll = append(recAll, call.Pos())
 										}
 									}
 								}
 							}
 							return true
 						})
+						lparents := parentMap(x.Body)
+						// an exit that follows a recursion in its own block has already covered the nested messages
+						covered := func(n ast.Node) bool {
+							blk, ok := lparents[n].(*ast.BlockStmt)
+							if !ok {
+								return false
+							}
+							for _, st := range blk.List {
+								if st.Pos() >= n.Pos() {
+									break
+								}
+								for _, rp := range recAll {
+									if nodeContains(st, rp) {
+										return true
+									}
+								}
+							}
+							return false
+						}
+						// nothing ahead of the recursive call may leave the iteration: a `continue` (or a successful
+						// return) for messages that have no annotated field of their own skips their nested messages
+						if recurses {
+							var scan func(n ast.Node) bool
+							scan = func(n ast.Node) bool {
+								switch b := n.(type) {
+								case *ast.ForStmt, *ast.RangeStmt, *ast.FuncLit:
+									return false // branch statements inside belong to the inner loop
+								case *ast.BranchStmt:
+									if (b.Tok == token.CONTINUE || b.Tok == token.BREAK) && b.Pos() < recPos && !covered(b) {
+										skipped = b.Tok.String() + " at " + c.P.Pos(b.Pos())
+									}
+								case *ast.ReturnStmt:
+									if b.Pos() < recPos && len(b.Results) == 1 && !covered(b) {
+										if id, ok := ast.Unparen(b.Results[0]).(*ast.Ident); ok && id.Name == "nil" {
+											skipped = "return nil at " + c.P.Pos(b.Pos())
+										}
+									}
+								}
+								return true
+							}
+							for _, st := range x.Body.List {
+								ast.Inspect(st, scan)
+							}
+						}
 					}
 				}
 				return true
@@ -393,8 +442,11 @@ func checkC12(c *Ctx) {
 			if !ranges {
 				continue // a wrapper handing the slice on, not a walker
 			}
-			r.Check(recurses, "R12b", FuncName(fn)+" covers nested messages", c.P.Pos(decl.Pos()),
-				"validation walker over []*protogen.Message does not recurse into <element>.Messages: annotations on nested messages are not validated")
+			why := "validation walker over []*protogen.Message does not recurse into <element>.Messages: annotations on nested messages are not validated"
+			if recurses && skipped != "" {
+				why = "the walker leaves the iteration (" + skipped + ") ahead of the recursion into <element>.Messages: nested messages of a message that is skipped are not validated"
+			}
+			r.Check(recurses && skipped == "", "R12b", FuncName(fn)+" covers nested messages", c.P.Pos(decl.Pos()), why)
 		}
 	}
 
